@@ -51,7 +51,7 @@ func (engineK) Name() string { return "K" }
 
 func (engineK) Generate(prop string, seed int64, run int) (*RunResult, error) {
 	opts := Options{}
-	plan, res, err := Generate(prop, ProfileFor(prop), seed, run, opts)
+	plan, res, err := Generate(prop, ProfileForRun(prop, run), seed, run, opts)
 	if err != nil {
 		return nil, err
 	}
@@ -70,7 +70,7 @@ func (engineK) Replay(plan *Plan, verbose bool) (*RunResult, error) {
 func (engineK) Samples(prop string, seed int64, n int) []any {
 	var out []any
 	for run := 0; run < 50 && len(out) < n; run++ {
-		plan, res, err := Generate(prop, ProfileFor(prop), seed, run, Options{})
+		plan, res, err := Generate(prop, ProfileForRun(prop, run), seed, run, Options{})
 		if err != nil || !res.Nontrivial {
 			continue
 		}
